@@ -175,7 +175,7 @@ func (e *Exec) frameObligations(fr *Frame, exit *State, exitGuard string, envEnt
 	}
 	top0 := e.top(e.entry)
 	for _, name := range sortedKeys(exit.H) {
-		if name == "$top" || strings.HasPrefix(name, "$visited$") {
+		if name == "$top" || strings.HasPrefix(name, "$visited$") || strings.HasPrefix(name, "$defer$") {
 			continue
 		}
 		srt := e.heapSorts[name]
